@@ -272,12 +272,18 @@ def coerce_default_value(
     # variable signatures that reuse this function for fragment arguments.)
     default_input = input_value.default
     if default_input is not None:
-        coerced_value = default_input._memoized_coerced_value  # noqa: SLF001
-        if coerced_value is Undefined:
+        # The memoized value is only valid for the type it was coerced for, since
+        # the same default input can be shared by arguments or input fields with
+        # different types (for instance by a schema and its extension).
+        type_ = input_value.type
+        memoized = default_input._memoized_coerced_value  # noqa: SLF001
+        if memoized is not Undefined and memoized[0] is type_:
+            coerced_value = memoized[1]
+        else:
             coerced_value = (
-                coerce_input_literal(default_input.literal, input_value.type)
+                coerce_input_literal(default_input.literal, type_)
                 if default_input.literal is not None
-                else coerce_input_value(default_input.value, input_value.type)
+                else coerce_input_value(default_input.value, type_)
             )
             if coerced_value is Undefined:
                 found = (
@@ -290,7 +296,10 @@ def coerce_default_value(
                     f" to be valid, found: {found}."
                 )
                 raise TypeError(msg)
-            default_input._memoized_coerced_value = coerced_value  # noqa: SLF001
+            default_input._memoized_coerced_value = (  # noqa: SLF001
+                type_,
+                coerced_value,
+            )
         return coerced_value
 
     # The deprecated internal default value is used as is.
